@@ -10,7 +10,7 @@ ACTIONS = ("Fill1", "Mid", "Begin", "Fill", "BinResult", "End", "AccBins")
 
 def run_main(chk, replay=None):
     thorough = chk.tier == "thorough"
-    chk.cov["checker_cmd"] = "tlc MC_Bins; tlc Trace_C11 (TRACE=out/C11/trace.ndjson)"
+    chk.cov["checker_cmd"] = "tlc MC_Bins; tlc MC_Layout; apalache-mc check --length=0 Bins_apa.tla / Layout_apa.tla; tlc Trace_C11 (TRACE=out/C11/trace.ndjson)"
     chk.cov["trusted_base"] = ["TLC", "Apalache 0.58 + Z3 (one-axis law for unbounded integers)", "dyadic parameters/coordinates so that the library's own arithmetic is exact", "exact_scaled projection of sums"]
     chk.cov["rule"] = ("Fill1: one-call PLAIN runs with a single projector.add for binnings bx 1..3, 1-d and by 1..2, min {-2,0,1/2}, size {1/4,1,3}, "
                        "scaled by 2^0/2^-20/2^20, coordinates on a quarter-bin lattice from two bins below to two above, NaN, +-inf, +-1e30, 2^64, 9.3e18; "
@@ -29,8 +29,14 @@ def run_main(chk, replay=None):
     if r.returncode != 0 or "Checker reports no error" not in r.stdout:
         raise vt.MachineryError("Apalache did not discharge Bins_apa!AxisLaw:\n" + r.stdout[-1500:])
     chk.cov["apalache"] = "Bins_apa!AxisLaw over unbounded coordinate, range start, bin size, bin count: no error"
-    chk.cov["obligations"] = 1
-    chk.cov["discharged"] = 1
+    # the storage laws for three distributions with any numbers of bins (Apalache / Z3), the 2 bx stride rejected
+    import apacommon
+    done = apacommon.discharge(chk, "Layout_apa", [
+        (["--length=0", "--inv=InBounds"], "ok", "every bin's pair of slots lies inside the array, away from the integral's, for unbounded bin counts"),
+        (["--length=0", "--inv=NoAlias"], "ok", "no two bins of three distributions with unbounded bin counts share a slot"),
+        (["--length=0", "--inv=NoAliasBx"], "error", "the stride 2 bx (rows forgotten) makes bins share slots")])
+    chk.cov["obligations"] = 1 + len(done)
+    chk.cov["discharged"] = 1 + len(done)
     exe = vt.build(*BUILDS[0][0])
     trace = replay or chk.path("trace.ndjson")
     if not replay:
